@@ -175,6 +175,10 @@ def run_case(case):
     log_starts, log_aux = [], []
     try:
         ds = Dataset.from_raw_list(am.raw_dataset(case["D"]))
+        uexp = case.get("uexp")
+        if uexp is not None:
+            # penalties q * 2**(-uexp): exact floats, arbitrarily small or large; TLC works on the integers q
+            unit = 2.0 ** uexp
         if H:
             ss = SS([[float(H * b + b2) for b, b2 in zip(B, B2)], [float(H * t + t2) for t, t2 in zip(T, T2)]])
         else:
@@ -190,7 +194,13 @@ def run_case(case):
         rec["out"] = "error:build:" + type(ex).__name__
         return rec
     reuse = case.get("reuse")
-    if reuse:
+    if not reuse or reuse["kind"] == "then_other":
+        try:
+            p = alg.is_scoring_scheme_relevant_when_incomplete_rankings(ss)
+            rec["pred"] = "true" if p is True else "false" if p is False else "exc:NotBool"
+        except Exception as ex:
+            rec["pred"] = "exc:" + type(ex).__name__
+    if reuse and reuse["kind"] != "then_other":
         # history before the measured run: the SAME algorithm object (and, for "mutate", the SAME dataset object) is
         # used first, its consensus score is read, then the dataset is modified in place / another dataset is given
         try:
@@ -217,12 +227,21 @@ def run_case(case):
             else:
                 B0, T0, u0 = reuse["sch0"]
                 ds0 = Dataset.from_raw_list(core.Absmap(case["naming"], reuse["D0"]).raw_dataset(reuse["D0"]))
+                ss0 = SS(core.scheme_float(B0, T0, u0))
                 try:
-                    c0 = alg.compute_consensus_rankings(ds0, SS(core.scheme_float(B0, T0, u0)), bool(case["flag"]))
+                    alg.is_scoring_scheme_relevant_when_incomplete_rankings(ss0)
+                except Exception:
+                    pass
+                try:
+                    c0 = alg.compute_consensus_rankings(ds0, ss0, bool(case["flag"]))
                     _ = c0.kemeny_score
                     _ = c0.description()
                 except Exception:
                     pass
+                # the first dataset dies before the measured one is (re)built: object identities may be recycled
+                c0 = None
+                del ds0, ds
+                ds = Dataset.from_raw_list(am.raw_dataset(case["D"]))
         except Exception as ex:
             rec["out"] = "setup-failed"
             return rec
@@ -248,6 +267,14 @@ def run_case(case):
         if case.get("env") == "standin":
             standin_cplex.uninstall()
     rec["out"] = "consensus"
+    if reuse and reuse["kind"] == "then_other":
+        try:
+            B0, T0, u0 = reuse["sch0"]
+            ds0 = Dataset.from_raw_list(core.Absmap(case["naming"], reuse["D0"]).raw_dataset(reuse["D0"]))
+            c1 = alg.compute_consensus_rankings(ds0, SS(core.scheme_float(B0, T0, u0)), bool(case["flag"]))
+            _ = c1.kemeny_score
+        except Exception:
+            pass
     rec["starts2"] = _independent_starts(case["cfg"], ds, ss, am)
     try:
         rec["K"] = [am.ranking(r) for r in cons.consensus_rankings]
